@@ -11,6 +11,8 @@
 //!             is compiled with #![deny(unused_unsafe)] and uncapped lints (as for the native literal: accepted)
 //!   via    9: every element calls an unsafe fn WITHOUT an unsafe block (as for the native literal: rejected,
 //!             whenever there is an element expression at all)
+//!   via   10: box_arr![x; N] inside a fn generic over the type-level length N (form 7 only: the expansion may not
+//!             put N into an item, which cannot name the parameters of the enclosing fn)
 //!   via    7: elements borrowing from temporaries of their own expression (u32 behind a reference)
 //!   via    1 here: every case is a generated program compiled with rustc against the rlib cargo
 //!          built from the current crate tree (so a case that does not compile is an
@@ -118,6 +120,12 @@ fn case_body(c: &[i128]) -> String {
             7 => format!("let o = observe(1, &*box_arr![{}; {nty}]); o", r(0)),
             _ => format!("let o = observe(1, &*box_arr![{}; {count}]); o", r(0)),
         };
+    }
+    // via 10: the type-level length is a generic parameter of the enclosing fn
+    if via == 10 {
+        return format!(
+            "fn gen<N: generic_array::ArrayLength>() -> Vec<i128> {{ let a: Box<GenericArray<{t}, N>> = box_arr![{x}; N]; observe(1, &a) }} gen::<{nty}>()"
+        );
     }
     // via 8 / 9: unsafe hygiene of the expansion around the caller's element expressions
     if via == 8 || via == 9 {
@@ -400,6 +408,12 @@ fn generated_cases(thorough: bool) -> Vec<Vec<i128>> {
             for via in [8i128, 9] {
                 v.push(vec![form, n, 0, if form == 0 || form == 6 { n % 2 } else { 0 }, via]);
             }
+        }
+    }
+    // box_arr! with a generic type-level length
+    for n in [0i128, 1, 3, 16, 100] {
+        for et in 0..4i128 {
+            v.push(vec![7, n, et, 0, 10]);
         }
     }
     // box_arr! is not usable in a const
